@@ -1,5 +1,5 @@
 (* C02 proofs, part 3: every modelled buffer read is inside its buffer (FastCGI read_len / parse_pairs with the uint32
-   casts; SCGI key/value scan when the header block is NUL terminated) *)
+   casts, whole FastCGI connection; SCGI key/value scan when the header block is NUL terminated) *)
 From CppcmsV Require Import Base.Tac Base.CSem Base.CSemFacts C02.Defs C02.Proofs C02.Proofs2.
 Local Open Scope Z_scope.
 
@@ -113,11 +113,21 @@ Proof.
     injection E as <-. exact B2.
   - eapply IH; eauto.
 Qed.
+(* both overloads on the whole of body_: the empty body returns before front() is taken; a non-empty body shorter than
+   2^32 bytes is scanned inside its bounds *)
+Lemma parse_pairs_all_safe body : zlen body < 4294967296 -> parse_pairs_all body <> PUnsafe.
+Proof.
+  intros L. unfold parse_pairs_all. destruct body as [|c t]; [discriminate|].
+  destruct (rd_in (c :: t) 0) as [b ->]; [unfold zlen; cbn [length]; lia|].
+  apply parse_pairs_safe; [exact L|lia|unfold zlen; lia].
+Qed.
+Lemma parse_pairs_all_empty : parse_pairs_all [] = PTrue [].
+Proof. reflexivity. Qed.
 Lemma env_of_params_safe body : zlen body < 16384 -> env_of_params body <> None.
 Proof.
   intros L. unfold env_of_params.
-  pose proof (parse_pairs_safe (S (length body)) body 0 (Z.of_nat (length body)) [] ltac:(lia) ltac:(lia) ltac:(unfold zlen; lia)) as H.
-  destruct (parse_pairs _ _ _ _ _); [contradiction|discriminate|discriminate].
+  pose proof (parse_pairs_all_safe body ltac:(lia)) as H.
+  destruct (parse_pairs_all body); [contradiction|discriminate|discriminate].
 Qed.
 Lemma single_no_unsafe (it : item) (c : counters) : it <> IUnsafe -> ~ In IUnsafe (fst ([it], c)).
 Proof. intros H [E|[]]. congruence. Qed.
@@ -137,25 +147,24 @@ Proof.
     specialize (K rest3 SL). destruct (k rest3) as [l c]. cbn [fst] in *. intros [H|H]; [discriminate|auto].
   - apply single_no_unsafe; discriminate.
 Qed.
-(* once body_ has storage (any earlier record with content or padding, in particular after the first BEGIN_REQUEST)
-   no read of the FastCGI reader leaves its buffer, for every stream of bytes *)
-Lemma fcgi_conn_no_unsafe fuel : forall s, bytes_ok s -> ~ In IUnsafe (fst (fcgi_conn fuel s true)).
+(* no read of the FastCGI reader leaves its buffer, for every stream of bytes (whole connection, keep_conn chains and
+   management records included) *)
+Lemma fcgi_conn_no_unsafe fuel : forall s, bytes_ok s -> ~ In IUnsafe (fst (fcgi_conn fuel s)).
 Proof.
   induction fuel as [|f IH]; intros s B; cbn [fcgi_conn]; [apply single_no_unsafe; discriminate|].
   destruct (read_record s) as [[[h content] rest]|] eqn:R; [|apply single_no_unsafe; discriminate].
   apply (read_record_ok _ _ _ _ B) in R. destruct R as (B0 & LC).
-  cbv zeta. cbn [orb negb].
+  cbv zeta.
   destruct (negb (f_version h =? 1)); [apply single_no_unsafe; discriminate|].
   destruct (f_type h =? 9).
-  { pose proof (parse_pairs_safe (S (length content)) content 0 (Z.of_nat (length content)) []
-                  ltac:(lia) ltac:(lia) ltac:(unfold zlen; lia)) as PS.
-    destruct (parse_pairs _ _ _ _ _) as [|acc|acc]; [contradiction|apply single_no_unsafe; discriminate|].
-    specialize (IH rest B0). destruct (fcgi_conn f rest true) as [l c].
+  { pose proof (parse_pairs_all_safe content ltac:(lia)) as PS.
+    destruct (parse_pairs_all content) as [|acc|acc]; [contradiction|apply single_no_unsafe; discriminate|].
+    specialize (IH rest B0). destruct (fcgi_conn f rest) as [l c].
     cbn [fst] in *. intros [H|H]; [discriminate|auto]. }
   destruct (negb (f_type h =? 1)); [apply IH; exact B0|].
   destruct (negb (Z.of_nat (length content) =? 8)); [apply single_no_unsafe; discriminate|].
   destruct (negb (_ =? 1)).
-  { specialize (IH rest B0). destruct (fcgi_conn f rest true) as [l c].
+  { specialize (IH rest B0). destruct (fcgi_conn f rest) as [l c].
     cbn [fst] in *. intros [H|H]; [discriminate|auto]. }
   destruct (params_loop _ _ _ _) as [[body rest1]|] eqn:PL; [|apply single_no_unsafe; discriminate].
   assert (L0 : zlen (@nil N) < 16384) by (unfold zlen; cbn; lia).
@@ -169,6 +178,8 @@ Proof.
     apply fcgi_after_headers_no_unsafe; [exact B2|]. intros r Br. apply IH. exact Br.
   - apply fcgi_after_headers_no_unsafe; [exact B1|]. intros r Br. apply IH. exact Br.
 Qed.
+Lemma fcgi_run_no_unsafe s : bytes_ok s -> ~ In IUnsafe (fst (fcgi_run s)).
+Proof. unfold fcgi_run. apply fcgi_conn_no_unsafe. Qed.
 
 (* ------------------------------------------------------------------ SCGI key/value scan *)
 Lemma strlen_l_found : forall l k, nth_error l k = Some 0%N -> exists n, strlen_l l = Some n /\ 0 <= n <= Z.of_nat k.
